@@ -45,6 +45,7 @@ func init() {
 			{ID: "C15.R26", Text: "error discipline, module-wide: of every call that hands back an error, the failure reaches whoever asked (returned, panicked, sent, handed to a continuation, wrapped and then one of these — or a panic / error return that runs only where it is non-nil); the sites where it does not are the ones confirmed by reading (frozen table: package, callee, count, reason)", Run: errorDiscipline},
 			{ID: "C15.R27", Text: "the checkpoint-ahead guard compares with the current answer of the server: no caching, retrying or limiting layer in front of a collaborator that is not a proven pass-through (same rules as C20.R19 and C20.R20)", Run: func(c *Ctx, id string) { decoratorsTransparent()(c, id); noNewLayers(c, id) }},
 			{ID: "C15.R28", Text: "a stream that cannot be opened is seen by the fail-stop logic: openStream waits for nothing but its request (same rule as C11.R26)", Run: openDoesNotWait},
+			{ID: "C15.R29", Text: "fatal stays fatal also for a re-open triggered through the API: no recovering middleware, every route has its one handler (same rule as C10.R31)", Run: apiRoutesExact},
 			{ID: "C15.R6", Text: "bounded reopen then fail-stop (same rule as C12.R3)", Run: c12r3},
 		},
 	})
@@ -54,11 +55,11 @@ func c15r1(c *Ctx, id string) {
 	w := c.W
 	for _, ld := range w.implsOf("stream", "Checkpoint", "Load") {
 		for _, ls := range findLoadSites(c, id, ld) {
-			if ls.latest || len(ls.closure.Params) < 2 {
+			if ls.latest || ls.keyP == nil || ls.docP == nil {
 				continue
 			}
 			cl := ls.closure
-			vb, doc := cl.Params[0].Name(), cl.Params[1].Name()
+			vb, doc := ls.keyP.Name(), ls.docP.Name()
 			ds := doc + ".Checkpoint.SeqNo"
 			// "reported": the sequence-number answer has an entry for this vBucket; when it has none the map lookup yields
 			// the zero value, so any stored position above 0 is ahead of what the server is known to have reached
@@ -348,7 +349,12 @@ func c15r3(c *Ctx, id string) {
 			}
 		})
 		// the vbID opened is the loop's element
-		arg := w.Origin(call.Common().Args[1])
+		arg := ""
+		for _, a := range call.Common().Args[1:] {
+			if isUint16(a.Type()) {
+				arg = w.Origin(a)
+			}
+		}
 		c.Check(strings.HasPrefix(arg, "param("), id, "opener-arg@"+fname(body), call.Pos(), "opens its own vbID parameter "+arg, "opener opens "+arg)
 	})
 	if nGo != 1 {
@@ -366,7 +372,7 @@ func c15r3(c *Ctx, id string) {
 			}
 		}
 	})
-	okWG := add != nil && wait != nil && w.Origin(callOf(add).Args[1]) == "len(param("+oa.Params[1].Name()+"))" && len(guardsOf(wait.Block())) <= 1
+	okWG := add != nil && wait != nil && w.Origin(callOf(add).Args[1]) == "len(param("+sliceParamName(oa)+"))" && len(guardsOf(wait.Block())) <= 1
 	if okWG {
 		// Wait precedes every return
 		allInstrs(oa, func(in ssa.Instruction) {
@@ -380,7 +386,7 @@ func c15r3(c *Ctx, id string) {
 
 func c15r4(c *Ctx, id string) {
 	w := c.W
-	check := func(fnName string, conds []string, what string) {
+	check := func(fnName string, conds []string, what string, alsoUnder ...string) {
 		// the selection may live in the named function or in a helper extracted from it: accept any module
 		// function of the same package that contains a panic reached exactly when none of the tests holds
 		var home *ssa.Function
@@ -418,7 +424,28 @@ func c15r4(c *Ctx, id string) {
 						}
 					}
 				}
-				if matched == len(conds) {
+				// … and under nothing else: a panic deeper inside one of the branches (a later failure that is fatal too) is
+				// guarded by the tests as well, but is not the refusal of the selection
+				extra := 0
+				for _, g := range gs {
+					v, _ := stripNot(g.Cond, g.Branch)
+					o := w.Origin(v)
+					isTest := false
+					for _, want := range conds {
+						if strings.Contains(o, want) {
+							isTest = true
+						}
+					}
+					for _, a := range alsoUnder { // the selection as a whole may be conditional (nothing was handed in)
+						if strings.Contains(fmt.Sprintf("%v:%s", g.Branch, w.Origin(g.Cond)), a) {
+							isTest = true
+						}
+					}
+					if !isTest && freeConfigCond(w, g.Cond) == "" {
+						extra++
+					}
+				}
+				if matched == len(conds) && extra == 0 {
 					ok = true
 					c.see(fn)
 				}
@@ -431,7 +458,7 @@ func c15r4(c *Ctx, id string) {
 		}
 		c.Check(ok, id, "switch:"+what, home.Pos(), "the no-match path panics", "no panic is reached exactly when none of "+strings.Join(conds, ", ")+" holds; panics seen under "+strings.Join(seen, " "))
 	}
-	check("(*dcp.dcp).Start", []string{"IsCouchbaseMetadata)", "IsFileMetadata)"}, "metadata")
+	check("(*dcp.dcp).Start", []string{"IsCouchbaseMetadata)", "IsFileMetadata)"}, "metadata", "true:(recv.metadata == const(nil))", "false:(recv.metadata != const(nil))")
 	check("stream.NewVBucketDiscovery", []string{`== const("static")`, `== const("couchbase")`, `== const("kubernetesStatefulSet")`, `== const("kubernetesHa")`, `== const("dynamic")`}, "membership")
 	check("(*stream.leaderElection).Start", []string{`.LeaderElection.Type == const("kubernetes")`}, "leader-election")
 	// the metadata backends themselves refuse a mismatching type
@@ -609,4 +636,15 @@ func c15r8(c *Ctx, id string) {
 		}
 		c.Check(foundAt(in.Block()), id, "request-with-position@"+fname(os), in.Pos(), "Client.OpenStream is called only when the position lookup succeeded", "Client.OpenStream is called on a path where the position lookup did not succeed")
 	})
+}
+
+// sliceParamName: the name of fn's (last) slice-typed parameter.
+func sliceParamName(fn *ssa.Function) string {
+	name := ""
+	for _, p := range fn.Params {
+		if _, ok := p.Type().Underlying().(*types.Slice); ok {
+			name = p.Name()
+		}
+	}
+	return name
 }
